@@ -32,8 +32,8 @@ var corpusCases = []corpusCase{
 			r.opSeekAsync(1, seekRange{pfx: P, cut: true, bw: bw})
 			r.opSeekAsync(1, seekRange{pfx: P, cut: false, bw: bw})
 			r.opSeek(1, seekRange{pfx: P, bw: bw})
-			r.opDaoSeek(1, seekRange{bw: bw}, true)
-			r.opDaoSeek(1, seekRange{bw: bw}, false)
+			r.opDaoSeek(1, seekRange{bw: bw}, true, reNone)
+			r.opDaoSeek(1, seekRange{bw: bw}, false, reNone)
 		}
 		// one more layer: the cut happens only at the top
 		p := r.w.addLayer(1, true)
@@ -42,7 +42,7 @@ var corpusCases = []corpusCase{
 		for _, bw := range []bool{false, true} {
 			r.opSeekAsync(2, seekRange{pfx: P, cut: true, bw: bw})
 			r.opSeekAsync(2, seekRange{pfx: cat(P, P), cut: true, bw: bw})
-			r.opDaoSeek(2, seekRange{pfx: P, bw: bw}, true)
+			r.opDaoSeek(2, seekRange{pfx: P, bw: bw}, true, reNone)
 			for _, opts := range []int64{0, istorage.FindRemovePrefix, istorage.FindKeysOnly, istorage.FindValuesOnly} {
 				if bw {
 					opts |= istorage.FindBackwards
@@ -89,5 +89,32 @@ var corpusCases = []corpusCase{
 			r.opSeek(1, seekRange{pfx: []byte{0x70, 0x00}, start: []byte{0xff}, bw: bw})
 		}
 		r.o.Count("corpus:backward-start")
+	}},
+	// A dao-level scan whose callback uses the same dao (what native contracts do): the prefix
+	// handed to the store must not alias the private dao's reusable key buffer. BoltDB re-reads
+	// rng.Prefix at every cursor step, so with an aliased prefix the scan stops after the first
+	// flushed item. Shared and private daos, every backend, both directions, sync and async.
+	{allKinds, func(r *runner) {
+		P := daoPrefix
+		r.line("new 0 "+r.w.nodes[0].kind, "ok")
+		r.opChangeSet(0, []kv{{cat(P, []byte{1}), []byte{1}}, {cat(P, []byte{2}), []byte{2}}, {cat(P, []byte{2, 0}), []byte{3}},
+			{cat(P, []byte{3}), []byte{4}}, {[]byte{0x70, 6, 0, 0, 0, 9}, []byte{5}}})
+		r.w.addLayer(0, false)
+		r.line("layer 1 0 0", "ok")
+		r.w.addLayer(1, true)
+		r.line("layer 2 1 1", "ok")
+		r.w.addLayer(2, true)
+		r.line("layer 3 2 1", "ok")
+		r.opPut(3, cat(P, []byte{2, 1}), []byte{6}, true)
+		for _, id := range []int{1, 2, 3} {
+			for _, bw := range []bool{false, true} {
+				for _, async := range []bool{false, true} {
+					r.opDaoSeek(id, seekRange{bw: bw}, async, reAlways)
+					r.opDaoSeek(id, seekRange{pfx: []byte{2}, bw: bw}, async, reAlways)
+					r.opDaoSeek(id, seekRange{bw: bw}, async, reRandom)
+				}
+			}
+		}
+		r.o.Count("corpus:reentrant-dao-seek")
 	}},
 }
